@@ -207,20 +207,20 @@ if prop == 'C09':
                 idxd = [x for x in m.group(3).split(' ') if x]
                 if [x for x in plain if x != '{"owner":null}'] != idxd:
                     continue
-            if k.get('diagnosis') == 'indexed has every row of plain (only extra or repeated rows)':
+            if k.get('diagnosis') == 'indexed has a row that plain does not have (wrong or repeated parent)':
                 if not m or m.group(2) != '<nil>' or m.group(4) != '<nil>':
                     continue
                 plain = [x for x in m.group(1).split(' ') if x]
                 idxd = [x for x in m.group(3).split(' ') if x]
-                rest = list(idxd)
-                ok = True
-                for x in plain:
+                rest = list(plain)
+                extra = False
+                for x in idxd:
                     if x in rest:
                         rest.remove(x)
                     else:
-                        ok = False
-                if not ok:
-                    continue
+                        extra = True
+                if not extra:
+                    continue  # rows are only missing: not this finding
             return k['id']
         return None
     attributed, fresh = {}, []
